@@ -194,10 +194,21 @@ func (ep *errProv) summary(fn *ssa.Function) []provSet {
 				continue
 			}
 			for i, rv := range ret.Results {
-				if i >= n || !isErrorType(fn.Signature.Results().At(i).Type()) {
+				if i >= n {
 					continue
 				}
-				for _, it := range ep.prov(fn, rv, b, map[ssa.Value]bool{}) {
+				rt := fn.Signature.Results().At(i).Type()
+				var its []provItem
+				switch {
+				case isErrorType(rt):
+					its = ep.prov(fn, rv, b, map[ssa.Value]bool{})
+				case ep.httpErr != nil && namedOf(rt) == ep.httpErr:
+					// a function returning *HTTPError (HTTPErrorf, HTTPErrorFromError)
+					its = ep.provHTTPErr(fn, rv, b, map[ssa.Value]bool{})
+				default:
+					continue
+				}
+				for _, it := range its {
 					if s[i].add(it) {
 						grew = true
 						ep.changed = true
@@ -416,6 +427,11 @@ func (ep *errProv) provHTTPErr(fn *ssa.Function, v ssa.Value, at *ssa.BasicBlock
 		if call, ok := x.Tuple.(*ssa.Call); ok {
 			return ep.provCall(fn, call, x.Index, seen)
 		}
+		if ta, ok := x.Tuple.(*ssa.TypeAssert); ok && x.Index == 0 {
+			return ep.prov(fn, ta.X, at, seen)
+		}
+	case *ssa.TypeAssert:
+		return ep.prov(fn, x.X, at, seen)
 	}
 	return []provItem{{O: ep.origin(fn, instrOf(v), "lit", "HTTPError (untraced)"), Param: -1, Code: -1, CodeParam: -1}}
 }
